@@ -111,14 +111,18 @@ CLAIMED.update({
         "Coq proof (fold invariants, Permutation of track contents, pigeonhole, unit-cell measure) + correspondence with a boolean specification evaluated in Coq",
         "DESIGN.md 4/C07"),
     "C08": (
-        "4 Coq theorems (coq/Properties/C08.v) for the purity half on the value model: every read query refreshes caches "
-        "yet leaves track map, uri and modality unchanged, keeps the invariant and does not change the answer of any later "
-        "read. The independence half (no shared mutable state between derived object and source) cannot be expressed in a "
-        "value-semantics model and is NOT proved: it is decided by derive-then-mutate correspondence histories for every "
-        "deriving operation x cache state x mutated side, and by purity snapshots around every query.",
-        "Trusted: Coq kernel; model; harness (snapshots are taken through the public API; the Coq checker compares them). "
-        "Aliasing is explored (sampled), not proved; the heap model of DESIGN 4/C08 was not built.",
-        "Coq proof (purity on the value model) + derive-then-mutate exploration for aliasing",
+        "7 Coq theorems (coq/Properties/C08.v). Purity half, on the value model: every read query refreshes caches yet "
+        "leaves track map, uri and modality unchanged, keeps the invariant and does not change the answer of any later "
+        "read. Independence half, on an abstract heap (cells = mutable containers): separation of source and derived "
+        "object at derivation time plus a footprint discipline of every mutator call implies, for every later history of "
+        "mutator calls on either side, that the other side's content is unchanged (frame theorem; fails without "
+        "separation). The two premises are facts about the code and are observed on every case: identities of all "
+        "reachable dict/list/set/SortedDict/SortedList/Timeline/Annotation objects after each derivation and after the "
+        "mutations, and full snapshots of the untouched side, for every deriving operation x cache state x mutated side.",
+        "Trusted: Coq kernel; models; harness (snapshots through the public API; container identities by a generic walk "
+        "over __dict__ / dict / list / set contents, harness/heaputil.py). The premises of the frame theorem are checked "
+        "per explored case, not proved of the code.",
+        "Coq proof (purity on the value model; frame theorem for independence) + per-case observation of separation and derive-then-mutate histories",
         "DESIGN.md 4/C08"),
     "C09": (
         "9 Coq theorems (coq/Properties/C09.v): support(collar) holds exactly one track per label in use and segment of that "
